@@ -143,6 +143,18 @@ func (c *channel) setState(state SessionState) {
 	}
 }
 
+// setTerminalState stores a terminal state (finished or failed) and stops the receiver goroutine.
+// When the session was already terminated by a concurrent call, the first terminal state is kept.
+func (c *channel) setTerminalState(state SessionState) {
+	c.stateMu.Lock()
+	if c.state != SessionStateFinished && c.state != SessionStateFailed {
+		c.state = state
+	}
+	c.stateMu.Unlock()
+
+	c.stopRcv.Do(c.stopReceiver)
+}
+
 func (c *channel) setStateWLock(state SessionState) {
 	c.stateMu.Lock()
 	defer c.stateMu.Unlock()
